@@ -309,6 +309,8 @@ def _epoch_length_var(R: Roles) -> Optional[str]:
         if nd.kind != "test" or isinstance(nd.owner, ast.Assert):
             continue
         cond = R.term_at(n)
+        if cond[0] != "or":
+            cond = negate(cond)  # 'if in_update != batch_size and in_epoch != length: continue' is the same decision
         atoms = eq_atoms(cond)
         if cond[0] != "or" or len(atoms) != 2:
             continue
